@@ -85,5 +85,10 @@ FIXED.append("fixed: property=C12 50e9002 x is Population / ProdCharacteristic /
 FIXED.append("fixed: property=C18 dd0ccee patch.Insert(nil value) and patch.Replace(nil value) panicked; an integer value for a FHIR integer (sint32) or non-integer element panicked in intValueFromInt (also C01)")
 FIXED.append("fixed: property=C18 2588b76 Add/Replace of an integer element dropped the id and extensions of the supplied value")
 
+FIXED.append("fixed: property=C01 ea1f070 '5\\n mg'.toQuantity() panicked in MustParseQuantity")
+FIXED.append("fixed: property=C01 f252080 any operator on a FHIR Quantity element without value panicked (nil dereference in system.From)")
+FIXED.append("fixed: property=C01 1a2fa02 1.5.round(2147483647) did not terminate (10^2147483647)")
+FIXED.append("fixed: property=C01 7cd054e patch.Add(res, 'Patient.deceased', 'value', x) panicked (bool field converted to message)")
+
 if __name__ == '__main__':
     write()
